@@ -16,6 +16,12 @@ Inductive query :=
 | QState (seq : Z) | QSince (seq : Z) | QUntil (seq : Z) | QFormats (seq : Z)
 | QPublic (seq format : Z) | QPrivate (seq format : Z) | QSymmetric (seq format : Z).
 
+(** one import target of a [KPlan]: its history, delegate (0 default, 1 overwrite, 2 skip), the nonces of
+    the import, the rings to read raw and the rings to read through the getters afterwards *)
+Record ktarget := mk_ktarget {
+  kt_master : bytes; kt_tape : list bytes; kt_ops : list rop; kt_deleg : N; kt_itape : list bytes;
+  kt_probes : list bytes; kt_views : list (bytes * list query) }.
+
 Inductive op :=
 (** history on an empty store; raw stored rings at [probes] *)
 | KHist (master : bytes) (tape : list bytes) (ops : list rop) (probes : list bytes)
@@ -27,6 +33,13 @@ Inductive op :=
 | KImportView (master : bytes) (tape : list bytes) (ops : list rop) (deleg : N) (itape : list bytes) (der : bytes) (path : bytes) (qs : list query)
 (** history, then the getters of ring [path] *)
 | KView (master : bytes) (tape : list bytes) (ops : list rop) (path : bytes) (qs : list query)
+(** source history, exportKeyRings in [mode], EncryptedKeys.Marshal / Unmarshal (the rings in DER SET
+    order), then for each target: target history, ImportKeyRings, raw stored rings, getters of the imported
+    rings — the composition the C18_v2*_identity theorems speak about, with no implementation bytes in
+    between (one op per export so that the histories are written once) *)
+(** history on an empty store: results, raw stored rings at [probes], getters of the rings in [views] *)
+| KHistViews (master : bytes) (tape : list bytes) (ops : list rop) (probes : list bytes) (views : list (bytes * list query))
+| KPlan (smaster : bytes) (stape : list bytes) (sops : list rop) (mode : N) (paths : list bytes) (targets : list ktarget)
 (** asn1.UnmarshalEncryptedKeys on a real plaintext, re-serialized by the model *)
 | KDerRoundTrip (der : bytes)
 (** acra-keys migrate: v1 file tree (enumeration order) into an empty v2 store *)
@@ -92,6 +105,10 @@ Definition imp_vals (i : imp) : list bytes :=
   (match im_res i with Ok _ => [x00] | Err _ => [x01] | Panic => [x02] end)
   :: n8 (length (im_events i)) :: flat_map (fun e => fst e :: ring_vals (snd e)) (im_events i).
 
+(** verdict and number of writes only (the written rings themselves: [imp_vals], domain c18v2) *)
+Definition imp_head (i : imp) : list bytes :=
+  [[match im_res i with Ok _ => x00 | Err _ => x01 | Panic => x02 end]; n8 (length (im_events i))].
+
 Definition run (o : op) : expected :=
   match o with
   | KHist master tape ops probes =>
@@ -119,6 +136,23 @@ Definition run (o : op) : expected :=
       | Some rs =>
           let i := import_rings Stub master (deleg_of dl) (h_b s) itape rs in
           XOk (view_vals master (im_b i) path qs)
+      end
+  | KHistViews master tape ops probes views =>
+      let (s, xs) := run_hist master (h0 tape) ops in
+      XOk (xs ++ flat_map (probe_vals (h_b s)) probes ++
+           flat_map (fun pq => view_vals master (h_b s) (fst pq) (snd pq)) views)
+  | KPlan smaster stape sops mode paths targets =>
+      let (s, _) := run_hist smaster (h0 stape) sops in
+      match export_rings Stub smaster (h_b s) mode paths with
+      | Ok rs =>
+          XOk (n8 (length (chunk64 (der_rings rs))) :: chunk64 (der_rings rs) ++
+               flat_map (fun t =>
+                 let (tg, _) := run_hist (kt_master t) (h0 (kt_tape t)) (kt_ops t) in
+                 let i := import_rings Stub (kt_master t) (deleg_of (kt_deleg t)) (h_b tg) (kt_itape t) (sorted_rings rs) in
+                 imp_head i ++ flat_map (probe_vals (im_b i)) (kt_probes t) ++
+                 flat_map (fun pq => view_vals (kt_master t) (im_b i) (fst pq) (snd pq)) (kt_views t)) targets)
+      | Err _ => XErr
+      | Panic => XPanic
       end
   | KView master tape ops path qs =>
       let (s, _) := run_hist master (h0 tape) ops in
